@@ -985,6 +985,9 @@ func (e *Env) field(v Value, name string, x ast.Expr) Value {
 			}
 		}
 	}
+	if i := baselineFieldIndex(sv.T, name); i >= 0 {
+		return sv.F[i] // the field was renamed since the contract was written
+	}
 	return e.fail("no field %s in %s", name, exprString(x))
 }
 
@@ -1323,11 +1326,14 @@ func (e *Env) call(n *ast.CallExpr) Value {
 		want, _ := strconv.Unquote(lit.Value)
 		t := p.Obj.Typ
 		name := ""
+		var lastStruct *types.Struct
+		lastIdx := -1
 		for _, pe := range p.Path {
 			switch u := t.Underlying().(type) {
 			case *types.Struct:
 				if pe.Idx == nil && pe.SubN == 0 && pe.Field < u.NumFields() {
 					name = u.Field(pe.Field).Name()
+					lastStruct, lastIdx = u, pe.Field
 					t = u.Field(pe.Field).Type()
 					continue
 				}
@@ -1336,7 +1342,10 @@ func (e *Env) call(n *ast.CallExpr) Value {
 			case *types.Slice:
 				t = u.Elem()
 			}
-			name = ""
+			name, lastStruct, lastIdx = "", nil, -1
+		}
+		if name != want && lastStruct != nil && baselineFieldIndex(lastStruct, want) == lastIdx {
+			return TTrue // the field was renamed since the contract was written
 		}
 		return BoolC(name == want)
 	case "fileexists", "filecontent":
@@ -1548,6 +1557,9 @@ func (e *Env) lvalueExpr(x interface{}) *PtrV {
 			if st.Field(i).Name() == n.Sel.Name {
 				return &PtrV{Nil: TFalse, Obj: base.Obj, Path: append(append([]PathEl(nil), base.Path...), PathEl{Field: i})}
 			}
+		}
+		if i := baselineFieldIndex(st, n.Sel.Name); i >= 0 {
+			return &PtrV{Nil: TFalse, Obj: base.Obj, Path: append(append([]PathEl(nil), base.Path...), PathEl{Field: i})}
 		}
 		e.fail("assigns: no field %s", n.Sel.Name)
 		return nil
